@@ -721,6 +721,8 @@ func first(a, _ []byte) []byte { return a }
 //@   assume_at_call (*nodeRef).deleteChild : implies(isMerge(*ptr) && survT(*ptr, b) != 4, survP(*ptr, b) != ptr.obj && as(node, survP(*ptr, b)).prefixLen + as(node4, (*ptr).pointer).prefixLen + 1 < 4294967296)
 //@   ensures[wf] WF1_alpha(t)
 //@   ensures[size] t.size == old(t.size) - ite(result, 1, 0)
+//@   ghost_at "ref.deleteChild(keyS[depth])" mergeAtUnlink = isMerge(*ref)
+//@   ensures[unlinked] implies(result && defined(mergeAtUnlink), mergeAtUnlink || lookP(*ref, keyS[depth]) == nil)
 //@   ensures[not_deleted_justified] implies(!result && defined(n), n.pointer == nil || (n.tag == 4 && !leafKeyIs_alpha(n.pointer, keyS)) || (n.tag != 4 && (!inlineMatch(n.pointer, keyS, depth) || depth >= len(keyS) || lookP(n, keyS[depth]) == nil || (lookT(n, keyS[depth]) == 4 && !leafKeyIs_alpha(lookP(n, keyS[depth]), keyS)))))
 //@   ensures[empty_is_initial] implies(result && rootTag0 == 4, t.root.pointer == nil && t.root.tag == 0)
 //@   ensures[noop_frame] implies(!result, frame())
@@ -749,6 +751,8 @@ func first(a, _ []byte) []byte { return a }
 //@   assume_at_call (*nodeRef).deleteChild : implies(isMerge(*ptr) && survT(*ptr, b) != 4, survP(*ptr, b) != ptr.obj && as(node, survP(*ptr, b)).prefixLen + as(node4, (*ptr).pointer).prefixLen + 1 < 4294967296)
 //@   ensures[wf] WF1_$KIND(t)
 //@   ensures[size] t.size == old(t.size) - ite(result, 1, 0)
+//@   ghost_at "ref.deleteChild(keyS[depth])" mergeAtUnlink = isMerge(*ref)
+//@   ensures[unlinked] implies(result && defined(mergeAtUnlink), mergeAtUnlink || lookP(*ref, keyS[depth]) == nil)
 //@   ensures[not_deleted_justified] implies(!result && defined(n), n.pointer == nil || (n.tag == 4 && !leafKeyIs_$KIND(n.pointer, keyS)) || (n.tag != 4 && (!inlineMatch(n.pointer, keyS, depth) || depth >= len(keyS) || lookP(n, keyS[depth]) == nil || (lookT(n, keyS[depth]) == 4 && !leafKeyIs_$KIND(lookP(n, keyS[depth]), keyS)))))
 //@   ensures[empty_is_initial] implies(result && rootTag0 == 4, t.root.pointer == nil && t.root.tag == 0)
 //@   ensures[noop_frame] implies(!result, frame())
@@ -948,6 +952,8 @@ func first(a, _ []byte) []byte { return a }
 //@   assume_at_call (*nodeRef).deleteChild : implies(isMerge(*ptr) && survT(*ptr, b) != 4, survP(*ptr, b) != ptr.obj && as(node, survP(*ptr, b)).prefixLen + as(node4, (*ptr).pointer).prefixLen + 1 < 4294967296)
 //@   ensures[wf] WF1_collation(t)
 //@   ensures[size] t.size == old(t.size) - ite(result, 1, 0)
+//@   ghost_at "ref.deleteChild(colKey[depth])" mergeAtUnlink = isMerge(*ref)
+//@   ensures[unlinked] implies(result && defined(mergeAtUnlink), mergeAtUnlink || lookP(*ref, colKey[depth]) == nil)
 //@   ensures[not_deleted_justified] implies(!result && defined(n), n.pointer == nil || (n.tag == 4 && !leafKeyIs_collation(n.pointer, keyS)) || (n.tag != 4 && (!inlineMatch(n.pointer, colKey, depth) || depth >= len(colKey) || lookP(n, colKey[depth]) == nil || (lookT(n, colKey[depth]) == 4 && !leafKeyIs_collation(lookP(n, colKey[depth]), keyS)))))
 //@   ensures[empty_is_initial] implies(result && rootTag0 == 4, t.root.pointer == nil && t.root.tag == 0)
 //@   ensures[noop_frame] implies(!result, frameExcept("collationSortedTree.cok.src", "CollationOrderKey.src"))
